@@ -357,6 +357,21 @@ impl utils::progress::ProgressUpdater for Progress {
         self.0.fetch_add(increment, std::sync::atomic::Ordering::SeqCst);
     }
 }
+/// Finding F4 (README.md): under CONCURRENT term fetches `DiskCache::put` now and then fails with an IO "No such file or directory"
+/// (item files are written and deleted outside the cache's state lock), and get_one_term propagates the error.  Known, reported,
+/// timing dependent: such a run is skipped (counted on stderr) unless C17_STRICT_CACHE_RACE=1.
+const KNOWN_F4: &str = "ChunkCache Error: IO: No such file or directory";
+static F4_SKIPS: std::sync::atomic::AtomicUsize = std::sync::atomic::AtomicUsize::new(0);
+fn known_f4(e: &str) -> bool {
+    if e.contains(KNOWN_F4) && *cas_client::remote_client::NUM_CONCURRENT_RANGE_GETS > 1 && std::env::var("C17_STRICT_CACHE_RACE").is_err() {
+        let n = F4_SKIPS.fetch_add(1, std::sync::atomic::Ordering::Relaxed) + 1;
+        eprintln!("known finding F4 hit ({n} so far): {e}");
+        true
+    } else {
+        false
+    }
+}
+
 fn progress_check(n: u64, p: &Progress) -> Result<u64, String> {
     let sum = p.0.load(std::sync::atomic::Ordering::SeqCst);
     if sum == n { Ok(n) } else { Err(format!("returns Ok({n}) but the progress updater was told about {sum} bytes in total")) }
@@ -442,6 +457,7 @@ fn expected_of(plan: &Plan, rq: &Request) -> Vec<u8> {
 fn check_output(ctx: &str, reported: Result<u64, String>, out: &PathBuf, expected: &[u8], stale: Option<&[u8]>) {
     let n = match reported {
         Ok(n) => n,
+        Err(e) if known_f4(&e) => return,
         Err(e) => witness(format!("{ctx}: the call {e}")),
     };
     let got = std::fs::read(out).unwrap_or_default();
@@ -460,6 +476,8 @@ fn check_output(ctx: &str, reported: Result<u64, String>, out: &PathBuf, expecte
         witness(format!("{ctx}: reports {n} bytes, but the output file has {} bytes and differs from the expected {} bytes first at offset {i}{stale_note}", got.len(), want.len()));
     }
 }
+
+static SMALL_CACHE_CLASS: std::sync::atomic::AtomicBool = std::sync::atomic::AtomicBool::new(false);
 
 fn run_plan(env: &Env, rng: &mut StdRng, plan: &Plan, note: &str, stale_every: usize, max_reqs: usize) {
     let fetch = Arc::new(plan.fetch.clone());
@@ -491,6 +509,35 @@ fn run_plan(env: &Env, rng: &mut StdRng, plan: &Plan, note: &str, stale_every: u
                 let ctx = format!("{}{note}; {writer}, {mode}, request = {}{}", plan.describe(), rq.what, if stale.is_some() { ", output file pre-filled with longer stale content" } else { "" });
                 let r = reconstruct(env, client, parallel, plan.api_terms(rq.from, rq.to), fetch.clone(), rq.offset, rq.range, out.clone());
                 check_output(&ctx, r, &out, &expected, stale.as_deref());
+            }
+        }
+    }
+    // chunk caches that are (much) smaller than one fetched range, and barely larger than the largest one: a cache that cannot
+    // hold what was fetched must not make the download fail or differ from the cache-less one (cold, then again).
+    // By default only in the child with NUM_CONCURRENT_RANGE_GETS = 1: with CONCURRENT term fetches HEAD d6ffad5 fails now and
+    // then (finding F4 in README.md: DiskCache::put_impl writes the item file outside the state lock while another put's eviction
+    // deletes files and the emptied key directory -> `ChunkCache Error: IO: No such file or directory`, which get_one_term
+    // propagates); C17_SMALL_CACHE_CONCURRENT=1 runs the class with concurrency as well.
+    if !SMALL_CACHE_CLASS.load(std::sync::atomic::Ordering::Relaxed) || max_reqs != usize::MAX {
+        return; // (not for the plans with delayed answers)
+    }
+    let largest_fetch: u64 = plan.fetch.values().flatten().map(|f| {
+        let x = plan.xorbs.iter().find(|x| f.url.contains(&x.path)).unwrap();
+        x.chunks[f.range.start as usize..f.range.end as usize].iter().map(|c| c.len() as u64).sum::<u64>() + 4 * (f.range.end - f.range.start + 2) as u64
+    }).max().unwrap_or(0);
+    for (what, size) in [("of 8000 bytes", 8000u64), ("one byte smaller than the largest fetched range", largest_fetch.saturating_sub(1).max(1)), ("64 bytes larger than the largest fetched range", largest_fetch + 64)] {
+        let dir = tempfile::tempdir().unwrap();
+        let small = new_client(env, Some(&CacheConfig { cache_directory: dir.path().to_path_buf(), cache_size: size }));
+        for (ri, rq) in reqs.iter().enumerate().take(1) {
+            let expected = expected_of(plan, rq);
+            for parallel in [false, true] {
+                for run in ["first run", "second run"] {
+                    let out = env.scratch.path().join(format!("small-cache-{ri}-{parallel}.bin"));
+                    let _ = std::fs::remove_file(&out);
+                    let ctx = format!("{}{note}; {}, chunk cache with a capacity {what} ({size} bytes; the largest fetched range takes {largest_fetch} bytes in the cache), {run}, request = {}", plan.describe(), if parallel { "reconstruct_file_to_writer_parallel" } else { "reconstruct_file_to_writer" }, rq.what);
+                    let r = reconstruct(env, &small, parallel, plan.api_terms(rq.from, rq.to), fetch.clone(), rq.offset, rq.range, out.clone());
+                    check_output(&ctx, r, &out, &expected, None);
+                }
             }
         }
     }
@@ -850,6 +897,7 @@ fn main() {
     //    gets1 = HF_XET_NUM_CONCURRENT_RANGE_GETS=1, gets64 = ...=64 (default 16): sections get_file, 1, 2 and the larger plans of 3
     let mode = std::env::args().find_map(|a| a.strip_prefix("--mode=").map(|m| m.to_string())).unwrap_or_default();
     let want_gets: usize = match mode.as_str() { "gets1" => 1, "gets64" => 64, _ => 16 };
+    SMALL_CACHE_CLASS.store(mode == "gets1" || std::env::var("C17_SMALL_CACHE_CONCURRENT").is_ok(), std::sync::atomic::Ordering::Relaxed);
     if *cas_client::remote_client::NUM_CONCURRENT_RANGE_GETS != want_gets {
         println!("infrastructure: HF_XET_NUM_CONCURRENT_RANGE_GETS={want_gets} was not picked up (value {})", *cas_client::remote_client::NUM_CONCURRENT_RANGE_GETS);
         std::process::exit(2);
